@@ -192,6 +192,38 @@ def check(chk: Check) -> None:
         chk.require(ok, R2, cons, where,
                     '%s accepts %s argument(s); the template passes %d%s' % (ent.descr(), '%d..%s' % (lo, hi if hi is not None else '*'), n, '+' if variadic else ''))
 
+    # the list literal `[e1, ..., en]` is lowered to a call of a table function with the elements as arguments: whatever that
+    # function is, it must return exactly those arguments as a list, for every n - a builder that looks at what its single
+    # argument is (list(x) converting a container) turns [[1, 2]] into [1, 2]
+    lm_ = C.lexmodel(F)
+    builders = set()
+    for t, name, args in common.lowered_calls(chk):
+        if t.prod.rhs and lm_.token_texts.get(t.prod.rhs[0]) == {'['} and lm_.token_texts.get(t.prod.rhs[-1]) == {']'} \
+                and t.prod.rhs[0] not in C.grammar(F).nonterminals and len(t.prod.rhs) <= 4 and name in tab:
+            builders.add(name)
+    for name in sorted(builders):
+        ent = tab[name]
+        fi_b = ent.funcinfo(F)
+        where_b = '%s:%d' % (F.modules[functab.FUNCS_MOD].rel, ent.line)
+        if fi_b is None:
+            chk.bad(R2, 'list literal builder FUNCTIONS[%r]' % name, where_b,
+                    'list literals are lowered to %s, which does not build the list of its arguments' % ent.descr())
+            continue
+        va = getattr(fi_b.node.args, 'vararg', None)
+        problems_b = []
+        if va is None or fi_b.node.args.args:
+            problems_b.append('the builder does not take its elements as *args')
+        else:
+            for k in range(0, 4):
+                params_k = tuple(('param', 'e%d' % i) for i in range(k))
+                for p in SymExec(F, fi_b, args={va.arg: ('tuple',) + params_k}).run():
+                    if not p.normal:
+                        problems_b.append('with %d element(s) a path raises %s' % (k, show(p.outcome[1])))
+                    elif A.strip_ids(p.outcome[1]) != ('list',) + params_k:
+                        problems_b.append('with %d element(s) the literal evaluates to %s, not to the list of its elements' % (k, show(p.outcome[1])))
+        chk.require(not problems_b, R2, 'list literal builder FUNCTIONS[%r]' % name, where_b,
+                    '; '.join(sorted(set(problems_b))[:3]) or 'returns its arguments as a list for every number of elements (0..3 checked, no branch on them)')
+
     # --------------------------------------------------------------------- R3
     charge_rules(chk, R3, R3)
     _r4_r5(chk)
